@@ -48,10 +48,11 @@ class Fn:
             out.append(f"{pad}@passthru")
         parts, seen_kwonly, seen_posonly = [], False, False
         ps = list(self.params)
+        k0 = "PosOnly" if any(p[1] == "PosOnly" for p in ps) else "PosOrKw"
         if self.kind in ("method", "property"):
-            ps = [("self", "PosOrKw", None, None)] + ps
+            ps = [("self", k0, None, None)] + ps
         elif self.kind == "classmethod":
-            ps = [("cls", "PosOrKw", None, None)] + ps
+            ps = [("cls", k0, None, None)] + ps
         n_posonly = sum(1 for p in ps if p[1] == "PosOnly")
         # positional-only parameters must come first
         ps = [p for p in ps if p[1] == "PosOnly"] + [p for p in ps if p[1] != "PosOnly"]
@@ -119,7 +120,16 @@ def gen_params(rnd, typing_ok, feature):
         ps.append(("kw", "VarKw", None, None))
     order2 = {"PosOnly": 0, "PosOrKw": 1, "VarPos": 2, "KwOnly": 3, "VarKw": 4}
     ps.sort(key=lambda p: order2[p[1]])
-    return ps
+    # positional parameters: once one has a default, all later ones need one
+    seen, fixed = False, []
+    for (n, k, a, d) in ps:
+        if k in ("PosOnly", "PosOrKw"):
+            if d is not None:
+                seen = True
+            elif seen:
+                d = "None"
+        fixed.append((n, k, a, d))
+    return fixed
 
 
 class Mod:
